@@ -240,8 +240,15 @@ func (c *conformanceServiceServer) BidiStream(
 
 			if responseDefinition != nil {
 				headerMD := grpcutil.ConvertProtoHeaderToMetadata(responseDefinition.ResponseHeaders)
-				// Immediately send the headers on the stream so that metadata can be read by the client
-				if err := stream.SendHeader(headerMD); err != nil {
+				if fullDuplex {
+					// Immediately send the headers on the stream so that metadata can be read by the client
+					if err := stream.SendHeader(headerMD); err != nil {
+						return err
+					}
+				} else if err := stream.SetHeader(headerMD); err != nil {
+					// We can only send them right away for full-duplex. For half-duplex operation,
+					// we must let the client complete its upload before trying to send anything
+					// (over HTTP/1.1 the rest of the request can't be read once the response started).
 					return err
 				}
 
